@@ -305,7 +305,7 @@ pub fn memory_check(args: &[String], n: usize, seed: u64, long_lines: bool, many
     let build = |reps: usize| -> (Vec<u8>, Vec<GLine>) {
         // `reps` hunks in a handful of file sections; run lengths around the buffer size
         let mut rng = Rng::new(mix(seed, &[tag("C11"), tag("mem")]));
-        let gp = GenParams { flavor: gen::Flavor::Git, sections: vec![], max_hunks: 1, pivot: 3, max_run: 8, with_commit_preamble: false, multibyte: false, no_newline_marker: false, similar_pairs: true, no_index_lines: false, no_prefix: false, line_number_class: 0, long_line_pct: 0 };
+        let gp = GenParams { flavor: gen::Flavor::Git, sections: vec![], max_hunks: 1, pivot: 3, max_run: 8, with_commit_preamble: false, multibyte: false, no_newline_marker: false, similar_pairs: true, no_index_lines: false, no_prefix: false, line_number_class: 0, long_line_pct: 0, path_style: 0 };
         let mut lines: Vec<GLine> = Vec::new();
         let mut templates: Vec<Vec<GLine>> = Vec::new();
         let mut tok = 0usize;
